@@ -1,5 +1,44 @@
-"""placeholder"""
+"""./check replay <file>: re-execute a minimised replay file in a fresh
+interpreter through the same code path that found it (DESIGN §3.4)."""
 
-def main(opts):
-    print("HARNESS-ERROR not built yet")
-    return 2
+from __future__ import annotations
+
+import json
+
+from . import core
+
+ENGINES = {"histories": ("sim.histories:replay_worker", False),
+           "schedules": ("sim.schedules:replay_worker", True),
+           "faults": ("sim.faults:replay_worker", False)}
+
+
+def main(opts) -> int:
+    if not opts.arg:
+        print("usage: ./check replay <file>")
+        return 2
+    with open(opts.arg) as fh:
+        rep = json.load(fh)
+    fn, coop = ENGINES[rep["engine"]]
+    hashseed = rep.get("plan", {}).get("hashseed", 0)
+    got1 = core.run_fresh(fn, {"plan": rep["plan"]}, hashseed=0, coop_locks=coop, timeout=600)
+    got2 = core.run_fresh(fn, {"plan": rep["plan"]}, hashseed=hashseed or 0, coop_locks=coop, timeout=600)
+    want = rep["signature"]["class"]
+    classes = [s["class"] for s in got1["signatures"]]
+    print(f"replay {opts.arg}: expected class {want}; observed {classes or 'no violation'}; "
+          f"log digest {got1['log_digest']} (second execution: {got2['log_digest']})")
+    if want == "hashseed_dependent":
+        if got1["log_digest"] != got2["log_digest"]:
+            print(f"VIOLATION property={rep['property']} replay={opts.arg}")
+            return 1
+        print("not reproduced on this tree")
+        return 0
+    if got1["log_digest"] != got2["log_digest"] and not hashseed:
+        print("HARNESS-ERROR replay is not deterministic")
+        return 2
+    for v in got1["violations"][:3]:
+        print("  " + core.cjson(v)[:600])
+    if got1["signatures"]:
+        print(f"VIOLATION property={rep['property']} replay={opts.arg}")
+        return 1
+    print("not reproduced on this tree")
+    return 0
